@@ -1037,11 +1037,11 @@ type link struct {
 // dial retries: ServeConn gives the client ONE second to send its Tversion; on a
 // loaded machine a late goroutine start must not count as a failure.
 func dial(connKind string, msize, smsize int) (l *link, err error) {
-	for try := 0; try < 6; try++ {
+	for try := 0; try < 12; try++ {
 		if l, err = dial1(connKind, msize, smsize); err == nil {
 			return l, nil
 		}
-		time.Sleep(200 * time.Millisecond)
+		time.Sleep(time.Duration(200*(try+1)) * time.Millisecond)
 	}
 	return nil, err
 }
@@ -1176,7 +1176,7 @@ func childFunc() {
 			l.S.barrier = &barrier{want: k, ch: make(chan struct{})}
 			l.S.mu.Unlock()
 			if !runSet(l, set) {
-				emit("F", "flow.no-return.concurrent."+connKind, "a concurrent set of calls over a connection that buffers without bound did not complete within "+callTimeout.String(),
+				emit("F", "flow.no-return.concurrent."+connKind, "a concurrent set of calls over a "+connKind+" connection did not complete within "+callTimeout.String(),
 					"(concurrent-set "+strconv.Itoa(k)+")", detail("stacks", trim(stacks(), 6000)))
 			} else {
 				for _, c := range set {
